@@ -34,6 +34,16 @@ def insitu_matrix(ctx):
         dict(label="tee/Layer(gamma=1, u=1)/retries", dev="tee", gamma=1.0, u=1.0, current=12.0, field=0.6, dt=0.125, dt_max=0.5, window=2, solve_time=1.0),
         dict(label="barhole/Layer(gamma=0, u=2.5)/time-dependent epsilon", dev="barhole", gamma=0.0, u=2.5, current=4.0, field=0.4, epsilon_ramp=0.2,
              solve_time=0.3),
+        # how the user's epsilon function returns its values: Python ints mixed with floats, numpy scalars, vectorized, static
+        dict(label="bar/epsilon(r, t) returning int 1 and floats", dev="bar", current=4.0, field=0.3, epsilon_ramp=0.15, epsilon_form="int-mixed", solve_time=0.25),
+        dict(label="film/epsilon(r, t) returning numpy scalars of mixed type/gamma=1", dev="film", gamma=1.0, field=0.8, epsilon_ramp=0.15,
+             epsilon_form="numpy-scalar", solve_time=0.25),
+        dict(label="bar/epsilon(r) static, int and float", dev="bar", current=4.0, field=0.3, epsilon_ramp=1.0, epsilon_form="static-int-mixed", solve_time=0.2),
+        # sweeps that build all their Layers/Devices first: other (gamma, u) are created AFTER this run's layer and BEFORE its solve
+        dict(label="bar/Layer(gamma=10)/decoy layers (gamma=0,u=1),(gamma=1,u=2.5) built before the solve", dev="bar", current=6.0, field=0.4, solve_time=0.25,
+             decoys=[(0.0, 1.0), (1.0, 2.5)]),
+        dict(label="tee/Layer(gamma=1, u=1)/decoy layers (gamma=10,u=5.79),(gamma=0,u=3) built before the solve", dev="tee", gamma=1.0, u=1.0, current=6.0,
+             field=0.3, solve_time=0.25, decoys=[(10.0, 5.79), (0.0, 3.0)]),
     ]
     if not ctx.quick:
         runs += [
@@ -51,6 +61,8 @@ def insitu(ctx):
     """Solver level: 'whenever the update from step n to n+1 is answered' on the updates of REAL runs (wrappers on TDGLSolver.update and
     solve_for_psi_squared; z, w recomputed from the documented formulas in exact arithmetic; TLC validates with the PsiUpdateTrace clauses)."""
     runs = insitu_matrix(ctx)
+    if ctx.quick:
+        runs = [dict(a, max_traced=a.get("max_traced", 10)) for a in runs]      # quick: at most 10 traced updates per run (first steps of every phase always)
     res = rf.replay_all(ctx, [("call", dict(module="harness.psiupdate", func="insitu_run", args=a)) for a in runs])
     traces, owner = [], []
     for a, r in zip(runs, res):
@@ -69,6 +81,15 @@ def insitu(ctx):
     if not any(g == 0.0 for g, _, _ in ran) or not any(g not in (0.0, 10.0) for g, _, _ in ran) or not any(p and u != 5.79 for _, u, p in ran) \
             or not any(not p for _, _, p in ran):
         raise core.MachineryFailure(f"C02 in situ: need runs with Layer(gamma=0), another non-default gamma, a non-default u and the default u: {ran}")
+    forms = {r["epsilon_form"]: r["epsilon_fractional_sites"] for r in res if r["epsilon_form"] and r["n_updates"] > 0}
+    ctx.cov["insitu"]["epsilon_forms_with_fractional_sites"] = forms
+    if not {"float", "int-mixed", "numpy-scalar", "static-int-mixed"} <= set(forms) or min(forms.values()) < 3:
+        raise core.MachineryFailure(f"C02 in situ: epsilon forms not exercised (form -> sites with fractional epsilon): {forms}")
+    dec = [(r["requested_gamma"], r["requested_u"], r["decoys"]) for r in res if r["decoys"] and r["n_updates"] > 0
+           and all((g, u) != (r["requested_gamma"], r["requested_u"]) for g, u in r["decoys"])]
+    ctx.cov["insitu"]["runs_with_decoy_layers"] = len(dec)
+    if len(dec) < 2:
+        raise core.MachineryFailure(f"C02 in situ: fewer than 2 runs with decoy Layers of other (gamma, u) built before the solve: {dec}")
     if retried_mu < 3:
         raise core.MachineryFailure(f"C02 in situ: only {retried_mu} retried answered updates with mu != 0 (need >= 3)")
     if "second-solve" not in phases or "seeded" not in phases:
